@@ -85,7 +85,7 @@ class C12(Check):
         "simulated": ["raw file I/O (SimFS)", "gzip header clock",
                       "atexit registry"],
     }
-    tiers = {"quick": dict(runs=2400, budget=50),
+    tiers = {"quick": dict(runs=12000, budget=60),
              "thorough": dict(runs=120000, budget=720)}
     expected_probes = ["overwrite_refused", "cross_config_read", "gz_valid",
                       "hostile_refused", "absent_fetch", "sharded_file_op",
